@@ -198,6 +198,10 @@ theorem LeafOK.mono {n m last : Nat} (h : n ≤ m) : ∀ {lf : OpenLeaf}, LeafOK
 theorem Bound.mono {a b : Nat} (h : a ≤ b) {es : List Ev} (hb : Bound a es) : Bound b es :=
   fun e he l hl => Nat.le_trans (hb e he l hl) h
 
+theorem Inv.weaken {n m : Nat} (h : n ≤ m) {r : RawCore} (hi : Inv n r) : Inv m r :=
+  ⟨hi.bal, fun e he => (hi.rng e he).mono h, fun o ho => Nat.le_trans (hi.stk o ho) h, hi.lf.mono h,
+   hi.mono, hi.bnd, Nat.le_trans hi.lastLe h, hi.sok, hi.ltop⟩
+
 /-! ## raw operations and their preservation lemmas -/
 /-- append event `e`, replace the stack by `st` and the leaf by `lf`. -/
 def RawCore.emit (r : RawCore) (e : Ev) (st : List OpenC) (lf : OpenLeaf) : RawCore :=
@@ -494,6 +498,12 @@ def init : Core 0 :=
   ⟨⟨[], [], .none, 0⟩, ⟨by simp [replay, kinds], by simp, by simp, trivial, trivial, by simp [Bound], Nat.le_refl _,
     trivial, Or.inl rfl⟩⟩
 
+/-- the empty sink of a document whose first line is numbered `k + 1` (`k` lines precede it and are
+    not seen).  `init` is the case `k = 0`.  The ghost field `last` starts at `k`. -/
+def initAt (k : Nat) : Core k :=
+  ⟨⟨[], [], .none, k⟩, ⟨by simp [replay, kinds], by simp, by simp, trivial, trivial, by simp [Bound], Nat.le_refl _,
+    trivial, Or.inl rfl⟩⟩
+
 def stack (c : Core n) : List OpenC := c.raw.stack
 def out (c : Core n) : List Ev := c.raw.outRev.reverse
 def depth (c : Core n) : Nat := c.raw.stack.length
@@ -504,6 +514,9 @@ def nextLine (c : Core n) : Core (n + 1) :=
   ⟨c.raw, ⟨c.inv.bal, fun e he => (c.inv.rng e he).mono (Nat.le_succ n),
            fun o ho => Nat.le_succ_of_le (c.inv.stk o ho), c.inv.lf.mono (Nat.le_succ n),
            c.inv.mono, c.inv.bnd, Nat.le_succ_of_le c.inv.lastLe, c.inv.sok, c.inv.ltop⟩⟩
+
+/-- skip `d` line numbers (lines that exist in the file but are not shown to the parser). -/
+def skip (c : Core n) (d : Nat) : Core (n + d) := ⟨c.raw, c.inv.weaken (Nat.le_add_right n d)⟩
 
 /-- close the buffered leaf (no-op if there is none). -/
 def closeLeaf (c : Core n) : Core n :=
